@@ -364,10 +364,12 @@ def extract(unit, ex):
             frag = R.r10_vec_idioms(frag, st)
         if cfg.get("option_unfold"):
             # `.map(` is ambiguous with Iterator::map at the token level: unfolded only where the unit says the receiver is an Option
-            which = ("map_or", "map_or_else") + (("map",) if cfg.get("option_unfold_map") else ()) + (("unwrap_or_else",) if cfg.get("option_unfold_unwrap_or_else") else ())
+            which = ("map_or", "map_or_else") + (("map",) if cfg.get("option_unfold_map") else ()) + (("unwrap_or_else",) if cfg.get("option_unfold_unwrap_or_else") else ()) + (("and_then",) if cfg.get("option_unfold_and_then") else ())
             frag = R.r10_option_unfold(frag, st, which)
         if cfg.get("drop_nested_fns"):
             frag = R.drop_nested_fns(frag, st)
+        if cfg.get("continue_returns") is not None:
+            frag = R.r16_continue_returns(frag, st, cfg["continue_returns"])
         if cfg.get("for_desugar") is not None:
             frag = R.r16_for_desugar(frag, st, cfg["for_desugar"])
         if cfg.get("any_idioms"):
